@@ -166,6 +166,7 @@ def impl_record(sc, envF, envP, st, a, uval, frame_log):
 
 REVISIT = 4
 ARBITRARY = 6
+PARAM_STATES = 5
 
 
 def explore(sc, max_states, res):
@@ -247,6 +248,29 @@ def explore(sc, max_states, res):
                 queries.append("Q " + " ".join(map(str, d0 + tk + [C.fr(uval)])))
                 records.append(rec)
                 meta.append(outcome_class(a, info))
+    # fifth pass: the parameterised action space as the entry point. The vector that documents an action (type,
+    # target, OS, service, process) must lead to the transition of that action: whatever the vector loses or changes
+    # on its way through `get_action` (an OS constraint, a cost, a probability, the access granted) shows as a
+    # transition the model's step of the documented action does not make - judged by the same predicates C01..C08
+    envFV = NASimEnv(sc, fully_obs=True, flat_actions=False, flat_obs=False)
+    envPV = NASimEnv(sc, fully_obs=False, flat_actions=False, flat_obs=True)
+    vecs = [param_vector(sc, a) for a in acts]
+    pool = list(seen.values())
+    sample = pool[:2] + pool[-PARAM_STATES:] + [st]           # earliest, deepest, and the last arbitrary state
+    done_keys = set()
+    for stv in sample:
+        d0 = C.dyn_of(envF, stv)
+        if tuple(d0) in done_keys:
+            continue
+        done_keys.add(tuple(d0))
+        for a, tk, v in zip(acts, toks, vecs):
+            if v is None:
+                continue
+            arg = list(v) if len(queries) % 2 else np.array(v)
+            rec, ns, info = impl_record(sc, envFV, envPV, stv, arg, 0.0, frame_log)
+            queries.append("Q " + " ".join(map(str, d0 + tk + [C.fr(0.0)])))
+            records.append(rec)
+            meta.append(outcome_class(a, info))
     res["frame_violations"] += [dict(what=w) for w in sorted(set(frame_log))]
     return queries, records, meta, len(seen), envF
 
